@@ -54,6 +54,9 @@ func WithNoLoggingImpersonation(handler http.Handler, a authorizer.Authorizer, s
 			return
 		}
 		if len(impersonationRequests) == 0 {
+			// nothing to impersonate, but never let a client-supplied header of
+			// the Impersonate-* family (e.g. Impersonate-Uid) reach the upstream
+			clearImpersonationHeaders(req.Header)
 			handler.ServeHTTP(w, req)
 			return
 		}
@@ -168,16 +171,23 @@ func WithNoLoggingImpersonation(handler http.Handler, a authorizer.Authorizer, s
 		audit.LogImpersonatedUser(ae, newUser)
 
 		// clear all the impersonation headers from the request
-		req.Header.Del(authenticationv1.ImpersonateUserHeader)
-		req.Header.Del(authenticationv1.ImpersonateGroupHeader)
-		for headerName := range req.Header {
-			if strings.HasPrefix(headerName, authenticationv1.ImpersonateUserExtraHeaderPrefix) {
-				req.Header.Del(headerName)
-			}
-		}
+		clearImpersonationHeaders(req.Header)
 
 		handler.ServeHTTP(w, req)
 	})
+}
+
+// impersonateHeaderPrefix is the common prefix of the Impersonate-* header family.
+const impersonateHeaderPrefix = "Impersonate-"
+
+// clearImpersonationHeaders removes every header of the Impersonate-* family,
+// including ones this filter does not interpret (e.g. Impersonate-Uid).
+func clearImpersonationHeaders(headers http.Header) {
+	for headerName := range headers {
+		if strings.HasPrefix(http.CanonicalHeaderKey(headerName), impersonateHeaderPrefix) {
+			delete(headers, headerName)
+		}
+	}
 }
 
 func unescapeExtraKey(encodedKey string) string {
